@@ -345,3 +345,122 @@ Example ex_discarded_opens_counted :     (* the receiver rejects at the 3rd toke
   let r := crun (cinit 0) (combine (out s) [false; false; true; false; false; false; false; false; false; false; false; false; false; false]) in
   (List.length (out s), ccount r, cnt s, cagree r) = (14%nat, 5, 5, true).
 Proof. vm_compute. reflexivity. Qed.
+
+(* ---- receive-side rejections stay inside their top-level object *)
+Lemma dep_app d a b : dep d (a ++ b) = dep (dep d a) b.
+Proof. revert d. induction a as [|t a IH]; intros d; [reflexivity|]. destruct t; cbn [app dep]; apply IH. Qed.
+
+Lemma dep_unwind st : forall k, dep (List.length st + k) (unwind_all st) = k.
+Proof.
+  induction st as [|a st IH]; intros k; [reflexivity|]. cbn [unwind_all flat_map app dep List.length plus pred].
+  apply IH.
+Qed.
+
+Lemma violation_depth f1 f2 s : dep 0 (out s) = List.length (stack s) ->
+  dep 0 (out (violation f1 f2 s)) = List.length (stack (violation f1 f2 s)).
+Proof.
+  intros H. unfold violation. destruct (stack s) as [|id r] eqn:E; cbn [out stack List.length]; [exact H|].
+  rewrite dep_app, H, dep_app. cbn [List.length].
+  destruct f1, f2; cbn [app dep pred].
+  - pose proof (dep_unwind r 0) as D. rewrite Nat.add_0_r in D. exact D.
+  - pose proof (dep_unwind r 0) as D. rewrite Nat.add_0_r in D. exact D.
+  - pose proof (dep_unwind (id :: r) 0) as D. cbn [List.length] in D. rewrite Nat.add_0_r in D. exact D.
+  - pose proof (dep_unwind (id :: r) 0) as D. cbn [List.length] in D. rewrite Nat.add_0_r in D. exact D.
+Qed.
+
+Lemma step_depth s e : dep 0 (out s) = List.length (stack s) -> dep 0 (out (step s e)) = List.length (stack (step s e)).
+Proof.
+  intros H. unfold step. destruct (up s); cbn [negb]; [|exact H].
+  destruct e.
+  - destruct (stack s); cbn [out stack]; rewrite dep_app, H; reflexivity.
+  - cbn [out stack]. rewrite dep_app, H. reflexivity.
+  - apply violation_depth. exact H.
+  - destruct (stack s) as [|a [|b l]] eqn:E; cbn [out stack]; [rewrite E; exact H| |]; rewrite dep_app, H; reflexivity.
+  - destruct (stack s) eqn:E; [unfold crash; cbn [out stack]; rewrite E; exact H|]. apply violation_depth. rewrite E. exact H.
+  - exact H.
+Qed.
+
+Lemma run_depth evs : forall s, dep 0 (out s) = List.length (stack s) -> dep 0 (out (run s evs)) = List.length (stack (run s evs)).
+Proof.
+  induction evs as [|e evs IH]; intros s H; [exact H|]. cbn [run fold_left]. fold (run (step s e) evs).
+  apply IH. apply step_depth. exact H.
+Qed.
+
+Definition CInv (c : cstate) : Prop := cdown c = false /\ (cdepth c = 0%nat -> cdiscard c = false).
+
+Lemma cstep_inv c tv : CInv c -> CInv (cstep c tv) /\ cdepth (cstep c tv) = dep (cdepth c) [fst tv].
+Proof.
+  intros [D R]. destruct tv as [t v]. unfold CInv, cstep, stuck, reject, pb_unslicers_propagate.
+  destruct t; cbn [cdown cdepth cdiscard fst dep].
+  - split; [split; [exact D|discriminate]|reflexivity].
+  - split; [|reflexivity]. split.
+    + rewrite D. cbn. rewrite !andb_false_r. reflexivity.
+    + destruct (cdepth c) as [|[|k]]; cbn [pred]; try reflexivity. discriminate.
+  - split; [|reflexivity]. split; [exact D|]. intros Z0. rewrite Z0. apply R. exact Z0.
+  - split; [|reflexivity]. split.
+    + rewrite D. cbn. rewrite !andb_false_r. reflexivity.
+    + intros Z0. rewrite Z0. rewrite R by exact Z0. rewrite andb_false_r. reflexivity.
+Qed.
+
+Lemma crun_inv ts : forall c flags, List.length flags = List.length ts -> CInv c ->
+  CInv (crun c (combine ts flags)) /\ cdepth (crun c (combine ts flags)) = dep (cdepth c) ts.
+Proof.
+  induction ts as [|t ts IH]; intros c flags L I.
+  - destruct flags; [|discriminate]. cbn. auto.
+  - destruct flags as [|v flags]; [discriminate|]. cbn [List.length] in L. injection L as L.
+    cbn [combine crun fold_left]. fold (crun (cstep c (t, v)) (combine ts flags)).
+    destruct (cstep_inv c (t, v) I) as [I' Dp]. destruct (IH _ _ L I') as [I'' Dp'].
+    split; [exact I''|]. rewrite Dp', Dp. cbn [fst]. destruct t; reflexivity.
+Qed.
+
+(* for EVERY sequence of slicer behaviours on the sending side and EVERY choice of tokens at which the receiving side's
+   unslicers raise Violation: no unslicer is left behind on the stack, the receiver's nesting is the sender's, and whenever
+   the sender is back at its RootSlicer the receiver is back at its root and discards nothing -- the next call is received
+   as if nothing had happened *)
+Theorem receiver_rejections_contained c evs flags :
+  let s := run (init c) evs in
+  List.length flags = List.length (out s) ->
+  let r := crun (cinit c) (combine (out s) flags) in
+  cdown r = false /\ cdepth r = List.length (stack s) /\ (stack s = [] -> cdiscard r = false).
+Proof.
+  intros s L r.
+  destruct (crun_inv (out s) (cinit c) flags L) as [[D R] Dp]; [split; [reflexivity|reflexivity]|].
+  fold r in D, R, Dp. cbn [cinit cdepth] in Dp.
+  assert (E : dep 0 (out s) = List.length (stack s)) by (apply (run_depth evs (init c)); reflexivity).
+  split; [exact D|]. split; [rewrite Dp; exact E|].
+  intros K. apply R. rewrite Dp, E, K. reflexivity.
+Qed.
+
+(* ---- f.type: module and name are the two sides of the LAST dot of the transmitted name, and qual() joins them back *)
+Lemma split_last_spec sep t m n : split_last sep t = Some (m, n) -> t = m ++ [sep] ++ n /\ ~ In sep n.
+Proof.
+  revert m n. induction t as [|c r IH]; intros m n H; [discriminate|]. cbn [split_last] in H.
+  destruct (split_last sep r) as [[m' n']|] eqn:E.
+  - inversion H; subst. destruct (IH _ _ eq_refl) as [A B]. split; [cbn; f_equal; exact A|exact B].
+  - destruct (c =? sep) eqn:C; [|discriminate]. inversion H; subst. apply Z.eqb_eq in C. subst c.
+    split; [reflexivity|]. clear H IH. revert E. induction n as [|x n IHn]; intros E; [intros []|].
+    cbn [split_last] in E. destruct (split_last sep n) as [[? ?]|] eqn:E2; [discriminate|].
+    destruct (x =? sep) eqn:X; [discriminate|]. intros [F|F]; [apply Z.eqb_neq in X; congruence|exact (IHn eq_refl F)].
+Qed.
+
+Lemma split_last_some sep t : In sep t -> exists m n, split_last sep t = Some (m, n).
+Proof.
+  induction t as [|c r IH]; intros H; [destruct H|]. cbn [split_last].
+  destruct (split_last sep r) as [[m n]|] eqn:E; [eauto|].
+  destruct H as [H|H]; [subst; rewrite Z.eqb_refl; eauto|]. destruct (IH H) as (m & n & X). discriminate.
+Qed.
+
+Theorem type_name_identified sep t : In sep t -> requal sep t = t.
+Proof.
+  intros H. unfold requal. destruct (split_last_some sep t H) as (m & n & E). rewrite E.
+  destruct (split_last_spec _ _ _ _ E) as [A _]. symmetry. exact A.
+Qed.
+
+Example ex_receiver_rejects_then_recovers :
+  let s := run (init 0) (events_of_top (Sub [Tok 1; Sub [Tok 2; Sub [Tok 3]]]) ++ events_of_top (Sub [Sub [Tok 4]])) in
+  let r := crun (cinit 0) (combine (out s) [false; false; true; false; false; false; false; false; false; false; false; false; false; false]) in
+  (cdown r, cdepth r, cdiscard r) = (false, 0%nat, false).
+Proof. vm_compute. reflexivity. Qed.
+
+Example ex_split : split_last 46 [97; 46; 98; 46; 88] = Some ([97; 46; 98], [88]).
+Proof. reflexivity. Qed.
